@@ -618,3 +618,41 @@ def check_loglevel_names(chk, ix):
                              "LogLevel.parse_type(%r) %s; expected %s: --logging-level=%s (or logging_level = %s in a configuration file) is %s"
                              % (name, "raises %s" % v.clsname() if k == "raise" else "returns %r" % (v,), "a usage error" if want == "error" else want, name, name,
                                 "rejected" if k == "raise" else "accepted"), file=f.file, line=f.lineno, stmt="def parse_type"))
+
+
+
+def check_typed_getters_concrete(chk, ix):
+    """Z5 on concrete values: getbool / getint / getfloat on a UserData that holds typed values (from a TOML file, from
+    Configuration(userdata=...)) and texts (from -D, from an ini file): a typed value comes back as it is, a text is
+    converted, a missing name gives the default, an unconvertible text raises ValueError."""
+    chk.rule("Z5", WHAT["Z5"])
+    uc = ix.cls("behave.userdata:UserData")
+    cases = [("getbool", True, True), ("getbool", False, False), ("getbool", "yes", True), ("getbool", "off", False), ("getbool", " TRUE ", True),
+             ("getbool", "maybe", "ValueError"), ("getbool", None, "DEFAULT"),
+             ("getint", 3, 3), ("getint", "12", 12), ("getint", "x", "ValueError"), ("getint", None, "DEFAULT"),
+             ("getfloat", 1.5, 1.5), ("getfloat", "2.5", 2.5), ("getfloat", None, "DEFAULT")]
+    for getter, stored, want in cases:
+        f = uc.lookup(getter)
+        if f is None:
+            raise AnalysisError("anchor missing: UserData.%s" % getter)
+        it = Interp(ix, name="UserData." + getter)
+        it.int_sat = 100000
+        st = State()
+        st.frames = []
+        me = st.alloc(HObj(uc, {}, kind="dict", items=[] if stored is None else [("name", stored)], label="userdata"))
+        try:
+            outs = it.call_function(st, f, ["name"], {"default": "DEFAULT"} if stored is None else {}, None, self_val=me)
+        except AnalysisError as e:
+            raise AnalysisError("UserData.%s(%r) not foldable: %s" % (getter, stored, e))
+        chk.absorb(it)
+        chk.instance("Z5")
+        got = [v if k == "val" else v.clsname() for (_, k, v) in outs]
+        if any(isinstance(g_, Top) for g_ in got):
+            raise AnalysisError("UserData.%s(%r) does not fold to a constant: %r" % (getter, stored, got))
+        if len(got) == 1 and got[0] == want and type(got[0]) is type(want):
+            chk.ok("Z5", {"getter": getter, "stored": repr(stored), "returns": repr(want)}, nontrivial_key=(getter, repr(stored)))
+        else:
+            chk.fail(Finding("Z5", f.fullname, "%s on %r -> %r" % (getter, stored, got),
+                             "UserData.%s('name') with the stored value %r gives %r; expected %r (a value that already has the type comes back as it is, "
+                             "a text is converted, an unconvertible text is a ValueError)" % (getter, stored, got, want),
+                             file=f.file, line=f.lineno, stmt="def " + getter))
